@@ -3,7 +3,8 @@
 second check), record the outcome in seeded/<id>/check.json and print a table.
   seedmatrix.py [ids...]"""
 import json, os, subprocess, sys, time
-ROOT = "/verif/seeded"
+HERE = os.path.dirname(os.path.dirname(os.path.abspath(__file__)))
+ROOT = os.path.join(HERE, "seeded")
 ALT = {"C09b-2": "C08", "C09d-2": "C08", "C16d-2": "C08"}   # written for C09, but what it needs is a thread interleaving: decided by C08's check
 ids = sys.argv[1:] or sorted(d for d in os.listdir(ROOT) if os.path.isdir(os.path.join(ROOT, d)) and not d.startswith("benign"))
 for i in ids:
@@ -15,7 +16,7 @@ for i in ids:
     except Exception:
         base = None
     if base: env["EVAL_BASE"] = base   # written against an earlier commit of /repo (a later fix: commit touches the same lines)
-    r = subprocess.run(["/verif/tools/evalseed.py", os.path.join(ROOT, i, "patch.diff"), prop], text=True, stdout=subprocess.PIPE, stderr=subprocess.STDOUT, env=env)
+    r = subprocess.run([os.path.join(HERE, "tools", "evalseed.py"), os.path.join(ROOT, i, "patch.diff"), prop], text=True, stdout=subprocess.PIPE, stderr=subprocess.STDOUT, env=env)
     out = r.stdout
     exit_line = [l for l in out.splitlines() if l.startswith("EXIT")]
     code = int(exit_line[-1].split()[1]) if exit_line else -1
